@@ -89,6 +89,24 @@ def run(ctx):
                             "must neither reject nor change the hash" % (a, outs[a][:40], b, outs[b][:40]))
         return None
     ctx.correspond("INJECT-OPTIONS", inj, hb, db, flags=fl, predicate=lattice_pred, coq_sample=2, nontrivial=lambda c, i: "ok" in i)
+    # ONE options object configured as <a> and then re-configured as <b> must behave (and compare) like a fresh one configured as <b>
+    rng3 = ctx.rng.fork("reconf")
+    rc = []
+    for v in VNAMES:
+        for n in (5, 44, 100, 300):
+            d = suites.gen_data(rng3, n)
+            pairs = [(a, b) for a in (31, 4, 8, 16, 1, 2, 0) for b in (0, 1, 27, 31)] if ctx.tier == "quick" else [(a, b) for a in range(32) for b in range(32)]
+            rc.append("hist %s u %s %s" % (v, hx(d), " ".join("fo %d %d f %d" % (a, b, b) for a, b in pairs)))
+
+    def reconf_pred(c, i, m):
+        outs = i.split(" | ")
+        for k in range(0, len(outs) - 1, 2):
+            if not outs[k].endswith(" 1"):
+                return "an options object set to one configuration and then to another does not equal a fresh one set to the latter"
+            if outs[k][:-2] != outs[k + 1]:
+                return "finalize with re-configured options gives `%s`, with fresh options of the same setting `%s`" % (outs[k][:60], outs[k + 1][:60])
+        return None
+    ctx.correspond("RECONFIGURE", rc, hb, db, flags=fl, predicate=reconf_pred, coq_sample=2, nontrivial=lambda c, i: True)
     lim = []
     for v in VNAMES:
         lim.append("limits %s" % v)
